@@ -621,7 +621,7 @@ fn random_pattern_case(t: &mut sdmodel::tape::Tape, ctx: &Ctx) -> Option<(Case, 
 }
 
 pub fn run(ctx: &Ctx) {
-    ctx.set_rule("every list pattern of width 0..3 (thorough: 4) over {name, _, nested [p, q], nested [h, ..t], nested {\"a\": x}} with and without a final ..rest, against lists of length 0..5 (two element families) and 4 non-list kinds; every object pattern of up to 3 entries from {shorthand, rename, rename to _, nested list pattern, computed key, nested object collect, absent key} with and without ..rest, against objects of size 0..5 and 3 non-object kinds; each in declaration, assignment, for-target and parameter position with all bound names printed, plus the round-trip law [p..] + rest == xs; every split of 0..5 argument values into plain and spread arguments (incl. empty spreads) against arity 0..4 with and without a rest parameter; a catalogue of inverse laws and of shape errors (duplicate names at any nesting, misplaced spread / collect); oracle: reference binding semantics, laws evaluated in Seed; spread beside a side effect on the spread list against the written-out form; random pattern trees (lists up to 40 wide, repeated object keys, depth 3) against fitting and one-off sources in a random binding position; sources of 17..100 elements. Non-trivial = pattern with collect or nesting, or a call with spread arguments or a rest parameter; distinct = distinct source texts");
+    ctx.set_rule("every list pattern of width 0..3 (thorough: 4) over {name, _, nested [p, q], nested [h, ..t], nested {\"a\": x}} with and without a final ..rest, against lists of length 0..5 (two element families) and 4 non-list kinds; every object pattern of up to 3 entries from {shorthand, rename, rename to _, nested list pattern, computed key, nested object collect, absent key} with and without ..rest, against objects of size 0..5 and 3 non-object kinds; each in declaration, assignment, for-target and parameter position with all bound names printed, plus the round-trip law [p..] + rest == xs; every split of 0..5 argument values into plain and spread arguments (incl. empty spreads) against arity 0..4 with and without a rest parameter; a catalogue of inverse laws and of shape errors (duplicate names at any nesting, misplaced spread / collect); oracle: reference binding semantics, laws evaluated in Seed; spread beside a side effect on the spread list against the written-out form; random pattern trees (lists up to 40 wide, repeated object keys, depth 3) against fitting and one-off sources in a random binding position; sources of 17..100 elements; keys of a pattern that read a name bound by an earlier item of the same pattern (5 shapes x 3 records x 4 positions, with and without an outer variable of that name). Non-trivial = pattern with collect or nesting, or a call with spread arguments or a rest parameter; distinct = distinct source texts");
     ctx.replay_corpus(None);
     ctx.judge_all(law_cases(ctx), Via::Cli, None);
     let width = if ctx.tier == Tier::Quick { 3 } else { 4 };
